@@ -168,7 +168,7 @@ def r2(c):
 
 def r3(c, db):
     repo = c.repo
-    c.rule("C18.R3", "for every devdb sequence (model = this key's chain is true) and every vendor's canonical hardware, each rule file renders to a well-formed tree: "
+    c.rule("C18.R3", "every rule row compiles to a valid regex; for every devdb sequence (model = this key's chain is true) and every vendor's canonical hardware, each rule file renders to a well-formed tree: "
                      "%if/%endif balanced, every Mako condition evaluable, consistent indentation after branch selection; quick: the distinct branch combinations of each file")
     texts = load_rule_texts(repo)
     vendors = load_vendors(repo)
@@ -183,6 +183,13 @@ def r3(c, db):
     for t in texts:
         for no, msg in t.mako_problems:
             c.violated("C18.R3", f"{t.rel}:{no}", f"{t.rel.split('/')[-1]}:mako", msg, key_text=msg)
+        for r in t.all_rows():
+            if r.type == "context" or (t.kind == "deploy" and r.row.startswith(("dialog:", "ignore:"))):
+                continue
+            err = dsl.row_regex_error(r.row)
+            if err:
+                c.violated("C18.R3", f"{t.rel}:{r.line.no}", f"{t.rel.split('/')[-1]}:{r.row}", f"the row's regex does not compile ({err}): compiling the rulebook raises re.error for "
+                           "every model that selects this line", key_text="row-regex")
         conds = []
         for ln in t.lines:
             for cond, _ in ln.conds:
